@@ -168,6 +168,26 @@ func f32Lattice(i int64) float64 {
 	return float64(math.Float32frombits(f32LatMag(i - f32LatM)))
 }
 
+// f64 lattice: every (sign, exponent, top 8 mantissa bits) pattern x 4 low-mantissa fillers,
+// ascending; index in [0, 2*f64LatM)
+var f64Fill = [4]uint64{0, 1, 1 << 43, 1<<44 - 1}
+
+const f64LatM = int64(0x7FF<<8)*4 + 1
+
+func f64LatMag(j int64) uint64 {
+	if j == f64LatM-1 {
+		return 0x7FF << 52
+	}
+	return uint64(j/4)<<44 | f64Fill[j%4]
+}
+
+func f64Lattice(i int64) float64 {
+	if i < f64LatM {
+		return math.Float64frombits(1<<63 | f64LatMag(f64LatM-1-i))
+	}
+	return math.Float64frombits(f64LatMag(i - f64LatM))
+}
+
 // c08Alphabet64 is the finite float64 alphabet (sorted keys); f32 restricts it to values
 // exactly representable as float32.
 func c08Alphabet64(bd int, f32 bool) []int64 {
@@ -290,6 +310,7 @@ func c08Run(c *core.Ctx) {
 				}
 			} else {
 				doms = append(doms, dom{"alphabet", genList(alpha), fromKey, 1, true, false})
+				doms = append(doms, dom{"f64-lattice(sign,exponent,top 8 mantissa bits x 4 low fillers)", genRange(0, 2*f64LatM-1), f64Lattice, 16, false, false})
 			}
 			allExh := true
 			for _, dm := range doms {
@@ -364,7 +385,7 @@ func c08Run(c *core.Ctx) {
 	c.Set("instantiations", inst)
 	c.Set("instantiations_with_exhaustive_source_domain", exh)
 	c.Set("exhaustive", exh == inst)
-	c.Set("rule", "22 instantiations through the real conversion on real buffers with 1, 2 and 3 channels in blocks (destination pre-filled with garbage), inputs ascending so that 'a larger input never gives a smaller code' is a streaming check; float32 sources: quick = lattice of all 2^20 sign/exponent/top-mantissa patterns x 4 low-mantissa fillers plus the float32-representable alphabet, thorough = every non-NaN float32 bit pattern; float64 sources: finite alphabet (+-4 ulp around 0, +-1, +-2^k and 1.5*2^k for k=-70..70, multiples around 256/65536/2^31/2^32/2^63/2^64, +-Inf, MaxFloat, every cell border j/2^(d-1) and j/(2^(d-1)-1) and cell middle for 8/16-bit destinations, boundary borders for wider ones); NaN never generated; exact oracle (128-bit integer product m*FS, no floating point); distinct_nontrivial = values of the primary sequence (distinct by construction)")
+	c.Set("rule", "22 instantiations through the real conversion on real buffers with 1, 2 and 3 channels in blocks (destination pre-filled with garbage), inputs ascending so that 'a larger input never gives a smaller code' is a streaming check; float32 sources: quick = lattice of all 2^20 sign/exponent/top-mantissa patterns x 4 low-mantissa fillers plus the float32-representable alphabet, thorough = every non-NaN float32 bit pattern; float64 sources: the lattice of all sign/exponent/top-8-mantissa patterns x 4 low-mantissa fillers (4.2*10^6 values) and a finite alphabet (+-4 ulp around 0, +-1, +-2^k and 1.5*2^k for k=-70..70, multiples around 256/65536/2^31/2^32/2^63/2^64, +-Inf, MaxFloat, every cell border j/2^(d-1) and j/(2^(d-1)-1) and cell middle for 8/16-bit destinations, boundary borders for wider ones); NaN never generated; exact oracle (128-bit integer product m*FS, no floating point); distinct_nontrivial = values of the primary sequence (distinct by construction)")
 	c.Assume("float64 inputs are covered by a finite alphabet only", "out-of-range float->int conversion is implementation-defined in Go; the check observes linux/amd64", "NaN excluded by the property")
 }
 
